@@ -80,7 +80,11 @@ func FromPlain(content []byte) string {
 			break
 		}
 		if utf8.RuneStart(b) {
-			content = content[:i]
+			// Drop the last rune only if it was cut short; a complete rune
+			// (or a byte that can never start one) stays and is validated.
+			if !utf8.FullRune(content[i:]) {
+				content = content[:i]
+			}
 			break
 		}
 	}
